@@ -72,6 +72,14 @@ def run(ctx):
         ctx.analysed(b)
         guards = _guard_sites(F, b)
         writes = [e for e in eff.events(b) if e.tags & {"cluster-content", "clusters-map"}]
+        if not guards:
+            # the test may have been moved into a private helper: look at the function with such helpers inlined
+            # (block ids of the original function are preserved, so `writes` stays valid)
+            from ..inline import inlined
+            b2 = inlined(F, b)
+            if b2 is not None and _guard_sites(F, b2):
+                b = b2
+                guards = _guard_sites(F, b)
         if not ctx.floor("C10.D1", "%s content writes" % name, len(writes), 1):
             continue
         if not guards:
